@@ -64,11 +64,22 @@ func C01(r *report.Report, tier string) {
 		depth, cap = 3, 4096
 	}
 	al := crashAlphabet()
-	r.Rule = fmt.Sprintf("every history of <=%d operations over a %d-symbol crash alphabet (all mutating RPCs, three WRITE stability levels, multi-block and unaligned writes, truncation, renames over existing targets, removal of a 600-block sparse file freed in the background), run on the real server on a recording disk under two background policies; every cut of the write/barrier trace x every loss choice of un-barriered writes (full product up to %d per epoch, <=2-deviation rule above); each distinct image: independent fsck of the logical disk, recovery by the real MakeNfs under two schedules, full dump must equal the reference state after a prefix that contains every stably acknowledged operation, then allocator/cache audit, six more operations, dump and fsck again. distinct_nontrivial = distinct crash images (canonical key: home blocks + live log) of all histories", depth, len(al), cap)
+	r.Rule = fmt.Sprintf("every history of <=%d operations over a %d-symbol crash alphabet (all mutating RPCs, three WRITE stability levels, multi-block and unaligned writes, truncation, renames over existing targets, removal of a 600-block sparse file freed in the background), run on the real server on a recording disk under two background policies, and for the single-operation histories (thorough: also a fifth of the two-operation ones) under every schedule with one deviation in when the journal's daemons run; every cut of the write/barrier trace x every loss choice of un-barriered writes (full product up to %d per epoch, <=2-deviation rule above); each distinct image: independent fsck of the logical disk, recovery by the real MakeNfs under two schedules, full dump must equal the reference state after a prefix that contains every stably acknowledged operation, then allocator/cache audit, six more operations, dump and fsck again. distinct_nontrivial = distinct crash images (canonical key: home blocks + live log) of all histories", depth, len(al), cap)
 	var jobs []crashArg
 	for _, h := range crashHistories(al, depth) {
 		for _, eager := range []bool{false, true} {
 			jobs = append(jobs, crashArg{Prop: "C01", DiskSize: 3000, Setup: crashSetup, Ops: h, Cap: cap, Eager: eager, Probe: crashProbe, Nested: tier == "thorough" || len(h) == 1})
+		}
+		if len(h) == 1 || (tier == "thorough" && len(h) == 2 && h[0].K != h[1].K) {
+			// the disk trace depends on when the journal's daemons run: every schedule of the history run with
+			// one deviation (a daemon runs at a point where the client could have continued), points at disk writes
+			c := 64
+			if tier == "thorough" {
+				c = 256
+			}
+			if len(h) == 1 || len(jobs)%5 == 0 {
+				jobs = append(jobs, crashArg{Prop: "C01", DiskSize: 3000, Setup: crashSetup, Ops: h, Cap: c, Sched: 1, Probe: crashProbe})
+			}
 		}
 		if tier == "thorough" && len(h) <= 2 {
 			// descending map iteration: the other order of blocks inside one log append and of lock releases
